@@ -153,7 +153,9 @@ class C06(runner.Check):
 					mode=r.wchoice(["processed", "hypothetical", "raw"], [3, 2, 2]),
 					refs=r.wchoice(["gen", "tensor"], [3, 1]),
 					return_references=r.chance(0.4), thread=r.chance(0.12),
-					seed_type=r.wchoice(["int", "numpy.int64", "numpy.int32"], [6, 1, 1]))
+					seed_type=r.wchoice(["int", "numpy.int64", "numpy.int32"], [6, 1, 1]),
+					xview=r.wchoice(["contig", "strided"], [4, 1]),
+					args_as=r.choice(["tuple", "list"]))
 				if op["refs"] == "tensor":
 					op["return_references"] = False
 				if kind == "marg":
@@ -315,7 +317,13 @@ class C06(runner.Check):
 				else:
 					idx = op["idx"]
 					Xs = X[idx]
+					if op.get("xview") == "strided":
+						big = torch.zeros(Xs.shape[0], 4, L * 2, dtype=Xs.dtype)
+						big[:, :, ::2] = Xs
+						Xs = big[:, :, ::2]
 					a_s = None if args is None else tuple(a[idx] for a in args)
+					if a_s is not None and op.get("args_as") == "list":
+						a_s = list(a_s)
 					refs = None
 					if op["refs"] == "tensor":
 						refs = torch.stack([canon_refs[i] for i in idx])
